@@ -134,6 +134,12 @@ class Ctx(object):
         """
         self._n += 1
         tag = "%s_%d" % (module, self._n)
+        if "WordNA <- WordNAFromFile" in cfg and env:
+            # a substituted constant is re-evaluated at every use (each time re-reading the JSON file): inline the side table as a literal
+            src = env.get("SEED_FILE") or env.get("TRACE_FILE")
+            with open(src) as f:
+                wna = json.load(f).get("wordna", [])
+            cfg = cfg.replace("CONSTANT WordNA <- WordNAFromFile", "CONSTANT WordNA = {%s}" % ", ".join(str(int(x)) for x in wna))
         cfgp = self.path(tag + ".cfg")
         with open(cfgp, "w") as f:
             f.write(cfg)
